@@ -393,12 +393,12 @@ func (x *schTr) recFieldsOf(typeName string, out *[]schRecField) {
 }
 
 type schM struct {
-	x      *schTr
-	recv   string            // receiver variable name in Go
-	params map[string]string // Go parameter -> Lean name
-	fields map[string]string // field name -> Lean type
+	x       *schTr
+	recv    string            // receiver variable name in Go
+	params  map[string]string // Go parameter -> Lean name
+	fields  map[string]string // field name -> Lean type
 	usesNow bool
-	unit   bool // method without results
+	unit    bool // method without results
 }
 
 // expression; effects are appended to pre as `let …` lines
